@@ -32,6 +32,10 @@ REMOVERS = {
     r"manager::Edge::<.*>::force_drop$|::force_drop$": ("LevelViewSet<'id, N, ET, TM, R, MD, PAGE_SIZE, TAG_BITS>>::gc",
                                                         "as oxidd_core::Manager>::try_remove_node"),
     r"LevelViewSet::<.*>::gc$": ("as oxidd_core::LevelView>::gc", "as oxidd_core::Manager>::gc"),
+    # terminals are freed only by the manager's collection, inside its pre_gc/post_gc bracket: the apply cache holds
+    # uncounted terminal edges
+    r"terminal_manager::TerminalManager::gc$|as oxidd_manager_(index|pointer)::terminal_manager::TerminalManager.*>::gc$":
+        ("as oxidd_core::Manager>::gc",),
     r"LevelViewSet::<.*>::remove$": ("as oxidd_core::LevelView>::remove", "as oxidd_core::Manager>::try_remove_node"),
 }
 
